@@ -296,7 +296,9 @@ func c13PlanJudge(args, real, drv json.RawMessage) *core.Verdict {
 		if !c13SameSet(v.Skip, skip) {
 			return core.Fail("plan:root-selection", fmt.Sprintf("skip() = %v, roots %v select everything but %v", v.Skip, a.Roots, skip))
 		}
-		if (a.Limit > 0 && v.MaxConcurrency != a.Limit) || (a.Limit <= 0 && v.MaxConcurrency > 0) {
+		// a limit that is absent or larger than the configured one breaks the bound (a smaller one only differs from the
+		// model: reported below as a disagreement)
+		if a.Limit > 0 && (v.MaxConcurrency <= 0 || v.MaxConcurrency > a.Limit) {
 			return core.Fail("plan:limit", fmt.Sprintf("WithMaxConcurrency(%d) gives limit %d", a.Limit, v.MaxConcurrency))
 		}
 	}
